@@ -276,7 +276,9 @@ def unit_misc(unit):
         homog = [{"x": [1, 2], "y": [3, 4]}, {"x": [0.5, 1.5], "y": [2.5, 3.5]}, {"x": ["a", "b"], "y": ["c", "d"]}, {"x": [True, False], "y": [False, True]}]
         writes = [("view-none", lambda t: t["x"].__setitem__(1, None)), ("cell-none", lambda t: t.__setitem__((0, "y"), None)),
                   ("view-wider", lambda t: t["x"].__setitem__(0, 2.5)), ("cell-wider", lambda t: t.__setitem__((1, "y"), 2.5)),
-                  ("replace", lambda t: setattr(t, "x", [None, None])), ("column", lambda t: t.__setitem__((slice(None), "y"), [None, 1j]))]
+                  ("replace", lambda t: setattr(t, "x", [None, None])), ("column", lambda t: t.__setitem__((slice(None), "y"), [None, 1j])),
+                  ("replace-other-kind", lambda t: setattr(t, "x", ["s", "t"])), ("replace-both-other-kind", lambda t: (setattr(t, "x", ["s", "t"]), setattr(t, "y", ["u", "v"]))),
+                  ("replace-float", lambda t: setattr(t, "y", [1.5, 2.5]))]
         for cols in homog:
             for wl, w in writes:
                 for first_read in (True, False):
@@ -284,9 +286,11 @@ def unit_misc(unit):
                         t = Table({k: list(v) for k, v in cols.items()})
                         if first_read:
                             t[0]; [tuple(r) for r in t]; t.shape
+                        held = [t[0], t[1]]                 # rows taken BEFORE the write and not looked at: they hold the old cells
                         w(t)
                         rows = [t[0], t[1]] + [r.copy() for r in t]
-                        return rows
+                        # used as vectors only now: their slices carry the rows' dtype, which must describe the cells they hold
+                        return rows + [h[0:2] for h in held] + [h[::-1] for h in held]
                     try:
                         rows = thunk()
                     except Exception:
